@@ -162,7 +162,11 @@ impl<T: Copy> ReadStream<T> {
     pub fn wait_for_read(&self, need: usize) -> bool {
         #[cfg(feature = "verif")]
         use crate::verif::HookedArc as Arc;
-        self.circ.wait_for_read(need) < need && Arc::strong_count(&self.circ) == 1
+        // Read the writer's liveness *before* the sample count. The other way
+        // around, a writer that commits its last samples and goes away between
+        // the two reads makes this report "never" with the data sitting there.
+        let closed = Arc::strong_count(&self.circ) == 1;
+        self.circ.wait_for_read(need) < need && closed
     }
 
     /// Return true if there is nothing more ever to read from the stream.
@@ -241,7 +245,9 @@ impl<T: Copy> WriteStream<T> {
     pub fn wait_for_write(&self, need: usize) -> bool {
         #[cfg(feature = "verif")]
         use crate::verif::HookedArc as Arc;
-        self.circ.wait_for_write(need) < need && Arc::strong_count(&self.circ) == 1
+        // Liveness before free space, see wait_for_read().
+        let closed = Arc::strong_count(&self.circ) == 1;
+        self.circ.wait_for_write(need) < need && closed
     }
 
     #[must_use]
